@@ -67,16 +67,18 @@ def extract(tree_or_node, with_nodes=False, limit=2000000):
         s = [tx, nd.label, e.length if e is not None else None, []]
         nodes.append((s, nd))
         return s
-    root = mk(seed)
-    stack = [(seed, root)]
+    # true pre-order: a node is materialised when it is popped, its spec is then hooked into its parent's child list
+    root = None
+    stack = [(seed, None)]
     while stack:
-        nd, s = stack.pop()
-        kids = []
-        for ch in nd._child_nodes:
-            cs = mk(ch)
-            s[3].append(cs)
-            kids.append((ch, cs))
-        stack.extend(reversed(kids))
+        nd, parent_spec = stack.pop()
+        s = mk(nd)
+        if parent_spec is None:
+            root = s
+        else:
+            parent_spec[3].append(s)
+        for ch in reversed(nd._child_nodes):
+            stack.append((ch, s))
     if with_nodes:
         return root, nodes
     return root
